@@ -513,7 +513,6 @@ fn convert_intensity(p: &mut Point) {
 struct Range {
     min: f64,
     max: f64,
-    inv_range: f64,
 }
 
 impl Range {
@@ -559,15 +558,13 @@ impl Range {
     }
 
     fn from_min_max(min: f64, max: f64) -> Result<Self> {
-        let range = max - min;
-        if range < 0.0 {
+        if min > max {
             Error::invalid(format!("Found invalid range: min={min}, max={max}"))?;
         }
-        let inv_range = 1.0 / range;
+        // Infinite limits are replaced by the biggest finite values to keep the normalization well-defined
         Ok(Self {
-            min,
-            max,
-            inv_range,
+            min: min.clamp(f64::MIN, f64::MAX),
+            max: max.clamp(f64::MIN, f64::MAX),
         })
     }
 
@@ -665,7 +662,16 @@ impl Range {
     #[inline]
     fn normalize(&self, value: f64) -> f32 {
         let clamped = value.clamp(self.min, self.max);
-        let normalized = (clamped - self.min) * self.inv_range;
+        let range = self.max - self.min;
+        let normalized = if !range.is_finite() {
+            // The range itself does not fit into a f64, so we calculate with halved values
+            (clamped * 0.5 - self.min * 0.5) / (self.max * 0.5 - self.min * 0.5)
+        } else if range > 0.0 {
+            (clamped - self.min) / range
+        } else {
+            // Degenerated range with min == max
+            0.0
+        };
         normalized as f32
     }
 }
